@@ -122,7 +122,7 @@ func runCheck(prop, repo, verif, tier, work string, tmo int, verbose bool, updat
 	var funcs []string
 	notes := map[string]bool{}
 	trusted := map[string]bool{}
-	nObl, nDis, nCover, nCoverOK := 0, 0, 0, 0
+	nObl, nDis, nCover, nCoverOK, nBounded, nBoundedDis := 0, 0, 0, 0, 0, 0
 	solverTime := 0.0
 	unknownCalls := map[string]int{}
 	for _, k := range keys {
@@ -167,10 +167,19 @@ func runCheck(prop, repo, verif, tier, work string, tmo int, verbose bool, updat
 				nCover++
 				failures = append(failures, failure{name: o.Name, rep: rep, o: o, reason: "vacuity: precondition or invariant unsatisfiable"})
 			case "discharged":
-				nObl++
-				nDis++
+				if strings.Contains(o.Name, "@bounded") {
+					nBounded++
+					nBoundedDis++
+				} else {
+					nObl++
+					nDis++
+				}
 			case "failed":
-				nObl++
+				if strings.Contains(o.Name, "@bounded") {
+					nBounded++
+				} else {
+					nObl++
+				}
 				failures = append(failures, failure{name: o.Name, rep: rep, o: o, reason: "solver: " + o.FailKind})
 			}
 		}
@@ -275,7 +284,8 @@ func runCheck(prop, repo, verif, tier, work string, tmo int, verbose bool, updat
 		Coverage: map[string]any{
 			"obligations":              nObl,
 			"discharged":               nDis,
-			"bounded_obligations":      0,
+			"bounded_obligations":      nBounded,
+			"bounded_discharged":       nBoundedDis,
 			"checker_cmd":              fmt.Sprintf("/verif/bin/govc check %s --tier %s --repo %s", prop, tier, repo),
 			"trusted_base":             tb,
 			"functions_under_contract": funcs,
